@@ -303,8 +303,10 @@ def main(argv=None):
     level = getattr(mod, 'LEVEL', 'model_checking')
     rng_samples = samples
     if samples:
-        k = seed % len(samples)
-        rng_samples = (samples[k:] + samples[:k])[:6]
+        # prefer paths that observed something; the seed only rotates the choice
+        rich = [x for x in samples if x.get('observed')] or samples
+        k = seed % len(rich)
+        rng_samples = (rich[k:] + rich[:k])[:6]
     coverage = {
         'states': total.paths,
         'transitions': total.decisions,
